@@ -575,6 +575,10 @@ class RecordContextMatcher:
             return tuple(map(self.eval, node.elts))
         elif isinstance(node, ast.Name):
             if node.id not in self.data:
+                if node.id.startswith("__"):
+                    raise InvalidOperation(
+                        "Selector {!r} contains invalid name: {!r}".format(self.expression_str, node.id)
+                    )
                 return getattr(dynamic_fieldtype, node.id)
 
             return self.data[node.id]
